@@ -9,7 +9,18 @@ import (
 )
 
 func init() {
-	register("C01", func(r *vk.Report) { eseqCheck(r, "C01", "", []string{"inv", "ret", "verdict", "state"}) })
+	register("C01", func(r *vk.Report) {
+		eseqCheck(r, "C01", "", []string{"inv", "ret", "verdict", "state"})
+		// what an inner policy did in an earlier attempt must not colour a later result: Retry(Timeout(fn)), attempt 1 timed
+		// out and was retried, the execution is cancelled from outside during attempt 2 -> the cancellation, not ErrExceeded
+		vk.Parallel(scale(r, 200, 10000), 32, func(i int) {
+			if r.Skip(40000000 + i) {
+				return
+			}
+			c08AfterTimedOutAttempt(r, 40000000+i, "C01")
+		})
+		r.Rule += " Plus Retry(Timeout(fn)) with a first attempt that times out and a cancellation from outside during the second: the caller receives the cancellation's cause."
+	})
 	register("C10", func(r *vk.Report) {
 		eseqCheck(r, "C10", "fallback", []string{"fallback", "ret", "verdict", "events:fb."})
 	})
@@ -62,6 +73,12 @@ func init() {
 			}
 			c16ConcurrentBreakerEvents(r, 28000000+i)
 		})
+		vk.Parallel(scale(r, 600, 30000), 16, func(i int) {
+			if r.Skip(29000000 + i) {
+				return
+			}
+			c16ExceededOnce(r, 29000000+i)
+		})
 		// concurrent executions sharing listeners: exactly one OnDone and one of OnSuccess/OnFailure per execution
 		rr := vk.Rng(r.Seed, "C16c", 0)
 		comps := c14Compositions(rr, true)
@@ -71,7 +88,7 @@ func init() {
 			}
 			c14Round(r, "C16", 30000000+ci, comps[ci], ci)
 		}
-		r.Rule += " Plus executor copies (WithContext with nil/background/value contexts: listeners of the copy and the original stay separate) and async executions cancelled while a cancellation-ignoring function runs or from the OnDone listener (events must match what Get returns). Plus rejection-event scenarios (bulkhead/limiter refused, or cancelled by context, deadline or outer Timeout while queueing: OnFull/OnRateLimitExceeded fire exactly for refusals), 3 000 breaker histories with manual Open/HalfOpen/Close and listener subsets (events only), 1 500 rounds of 2-8 goroutines driving one zero-delay breaker through executions, records and manual transitions with slow listeners (the event log must be a connected path ending in the breaker's final state, specific and generic listeners in step), and concurrent rounds over shared executors where each execution must see exactly one OnDone and one of OnSuccess/OnFailure (attribution by a per-execution counter carried in the context)."
+		r.Rule += " Plus executor copies (WithContext with nil/background/value contexts: listeners of the copy and the original stay separate) and async executions cancelled while a cancellation-ignoring function runs or from the OnDone listener (events must match what Get returns). Plus rejection-event scenarios (bulkhead/limiter refused, or cancelled by context, deadline or outer Timeout while queueing: OnFull/OnRateLimitExceeded fire exactly for refusals), 3 000 breaker histories with manual Open/HalfOpen/Close and listener subsets (events only), 1 500 rounds of 2-8 goroutines driving one zero-delay breaker through executions, records and manual transitions with slow listeners (the event log must be a connected path ending in the breaker's final state, specific and generic listeners in step), Retry(Retry) and Hedge(Retry) executions in which the inner retry policy is re-entered after it gave up by max retries, max duration or abort (its OnRetriesExceeded/OnAbort fire at most once per execution), and concurrent rounds over shared executors where each execution must see exactly one OnDone and one of OnSuccess/OnFailure (attribution by a per-execution counter carried in the context)."
 	})
 	register("C17", func(r *vk.Report) {
 		eseqCheck(r, "C17", "stats", []string{"stats"})
